@@ -308,7 +308,7 @@ def extra(tier, rng, hbin, work):
             if rng.random() < 0.03: L.append('sleep 210')
         sa = os.path.join(kd, 'a%04d.txt' % it)
         open(sa, 'w').write('\n'.join(L) + '\n')
-        env = dict(os.environ); env['VERIF_LIVE'] = '1'; env['VERIF_TMP'] = kd
+        env = dict(os.environ); env['VERIF_LIVE'] = '1'; env['VERIF_TMP'] = kd; env['VERIF_KEEP'] = '1'
         p = subprocess.Popen([hbin, sa, sa + '.out'], env=env, stdout=subprocess.DEVNULL, stderr=subprocess.DEVNULL)
         time.sleep(rng.choice([0.004, 0.01, 0.02, 0.04, 0.08, 0.15]))
         p.send_signal(signal.SIGKILL)
